@@ -192,6 +192,11 @@ def _main(mod, prop, tier, seed, jobs, replay, scratch, t0):
                 vlines.append('VIOLATION property=%s replay=%s' % (prop, path))
                 vlines.append('  mechanism=%s occurrences=%d: %s' % (
                     mech, m.viol_counts[mech], v['what'][:300]))
+    if os.environ.get('VERIF_DUMP_LINES') and not replay:
+        os.makedirs(os.environ['VERIF_DUMP_LINES'], exist_ok=True)
+        with open(os.path.join(os.environ['VERIF_DUMP_LINES'],
+                               prop + '.lines'), 'w') as f:
+            f.write('\n'.join(sorted(m.sets.get('lines_reached', ()))))
     wall = time.time() - t0
     verdict = 'violated' if new else ('inconclusive' if inconclusive
                                       else 'held')
